@@ -50,6 +50,11 @@ LocalK(C, k) == k * NSeg(C) - SegOf(C, k) * D                 \* in 0..D
 SegPts(C, s) == <<C[3 * s + 1], C[3 * s + 2], C[3 * s + 3], C[3 * s + 4]>>
 SplineNum(C, k) == IF k <= 0 THEN C[1] * D * D * D ELSE IF k >= D THEN C[Len(C)] * D * D * D
                    ELSE Bern(SegPts(C, SegOf(C, k)), LocalK(C, k))
+\* the spline's tangent is the tangent of the cubic of the segment containing t, at the local
+\* parameter (not rescaled by the segment count); t is clamped to [0, 1]
+SplineDeriv(C, k) == IF k <= 0 THEN Deriv(SegPts(C, 0), 0)
+                     ELSE IF k >= D THEN Deriv(SegPts(C, NSeg(C) - 1), D)
+                     ELSE Deriv(SegPts(C, SegOf(C, k)), LocalK(C, k))
 
 \* ---------------------------------------------------------------- flattening machine
 \* answers: the halt predicate's answers in call order (1 = halt).  Result:
@@ -76,7 +81,7 @@ CloseTo(obs, num, den, tol) == Abs(obs * (den \div SC) - num) <= tol * (den \div
 \* e.op = "cubic":  P (per coordinate: <<p0..p3>>), kk (t = kk/D, possibly < 0 or > D), and per coordinate the
 \*                  observed eval, fast_eval (scaled SC), tangent (scaled SC); e.end = 1 if both evaluators
 \*                  returned the end control point bit-exactly (judged for k <= 0 or k >= D)
-\*        "spline": C (per coordinate), kk, eval per coordinate, end flag
+\*        "spline": C (per coordinate), kk, eval per coordinate, end flag, stan = tangent per coordinate
 \*        "flat":   C (per coordinate), maxdep, answers, errs (the vectors handed to halt, scaled SC, per call),
 \*                  n (number of output points), first / last (bit-exact flags), out (points, scaled SC; only
 \*                  for pieces at lattice parameters)
@@ -96,8 +101,9 @@ Allowed(e) ==
          /\ e.panic = 0
          /\ \A c \in 1..Len(e.C) :
               LET C == e.C[c]  tol == Tol(MaxAbsP(C)) * NSeg(C) IN
-              IF e.kk <= 0 \/ e.kk >= D THEN e.end = 1
-              ELSE CloseTo(e.ev[c], SplineNum(C, e.kk), D * D * D, tol)
+              /\ IF e.kk <= 0 \/ e.kk >= D THEN e.end = 1
+                 ELSE CloseTo(e.ev[c], SplineNum(C, e.kk), D * D * D, tol)
+              /\ CloseTo(e.stan[c], SplineDeriv(C, e.kk), D * D, 3 * Tol(MaxAbsP(C)))
     [] e.op = "flat" ->
          LET f == Flatten(e.maxdep, e.answers)  unit == 2 ^ (e.maxdep - 6) IN
          /\ e.panic = 0
